@@ -124,7 +124,9 @@ fn push_word(code: &mut Vec<u8>, x: U256) {
 }
 
 /// analyses the programs on 12 worker threads and reports every entry that does not lie inside its slot
-fn check_in_slot(name: &str, progs: Vec<(String, Vec<u8>)>) {
+fn check_in_slot(name: &str, progs: Vec<(String, Vec<u8>)>) { check_in_slot_as(name, "layout.entry_inside_slot", progs) }
+/// the same under another obligation name (a family that exercises a recorded finding reports under the finding's name)
+fn check_in_slot_as(name: &str, ob: &str, progs: Vec<(String, Vec<u8>)>) {
     use crate::c08::analyze_layout;
     std::panic::set_hook(Box::new(|_| {}));
     let n = progs.len();
@@ -134,16 +136,19 @@ fn check_in_slot(name: &str, progs: Vec<(String, Vec<u8>)>) {
         let hs: Vec<_> = chunks.iter().map(|ch| s.spawn(move || ch.iter().map(|(_, c)| analyze_layout(c)).collect::<Vec<_>>())).collect();
         hs.into_iter().map(|h| h.join().unwrap_or_default()).collect()
     });
+    let mut seen = std::collections::BTreeMap::new();
     for (ch, rs) in chunks.iter().zip(results) {
         for ((what, code), r) in ch.iter().zip(rs) {
             let Some(slots) = r else { continue };
             for (idx, off, width) in slots {
                 if off >= 256 || width.map_or(false, |w| off.checked_add(w).map_or(true, |e| e > 256)) {
-                    witness("C12", "layout.entry_inside_slot", format!("{what}: {code:02x?}"), format!("entry slot {idx} offset {off} width {width:?}"), "starts and ends inside the 256-bit slot".into());
+                    *seen.entry(ob.to_string()).or_insert(0usize) += 1;
+                    if seen[ob] <= 6 { witness("C12", ob, format!("{what}: {code:02x?}"), format!("entry slot {idx} offset {off} width {width:?}"), "starts and ends inside the 256-bit slot".into()); }
                 }
             }
         }
     }
+    for (o, k) in &seen { println!("NOTE {name} obligation={o} total_occurrences={k}"); }
     println!("CASES {name} {n}");
 }
 
@@ -220,4 +225,29 @@ fn c12_nested_masks_and_shifts_stay_inside_the_slot() {
         }
     }
     check_in_slot("c12_nested_masks", progs);
+}
+
+/// sub-words that nest THROUGH STORAGE: a field cut out of slot A is stored in slot B, a field cut out of slot B is stored
+/// in slot C, ... — whatever the types of B, C say about A, every entry still lies inside its slot
+#[test]
+fn c12_fields_of_fields_through_storage_stay_inside_the_slot() {
+    let m = |pos: u32, len: u32| -> U256 { if len >= 256 { U256::MAX << pos } else { ((U256::ONE << len) - U256::ONE) << pos } };
+    let cuts = [(128u32, 128u32), (192, 64), (64, 64), (0, 128), (248, 8), (100, 32), (8, 160)];
+    let mut progs: Vec<(String, Vec<u8>)> = vec![];
+    for &(p1, l1) in &cuts { for &(p2, l2) in &cuts { for in_place in [false, true] {
+        // a = field(sload(1)); sstore(2, a); b = field(sload(2)); sstore(3, b); [c = field(sload(3)); sstore(4, c)]
+        let field = |code: &mut Vec<u8>, slot: u8, pos: u32, len: u32, in_place: bool| {
+            if in_place { push_word(code, m(pos, len)); code.extend([0x60, slot, 0x54, 0x16]); }
+            else { push_word(code, m(0, len)); code.extend([0x60, slot, 0x54]); push_word(code, U256::from(pos)); code.extend([0x1c, 0x16]); }
+        };
+        let mut code = vec![];
+        field(&mut code, 1, p1, l1, false); code.extend([0x60, 0x02, 0x55]);
+        field(&mut code, 2, p2, l2, in_place); code.extend([0x60, 0x03, 0x55]);
+        let two = { let mut c = code.clone(); c.push(0x00); c };
+        progs.push((format!("s2 = s1[{p1},+{l1}); s3 = s2[{p2},+{l2}) ({})", if in_place { "mask in place" } else { "shifted down" }), two));
+        field(&mut code, 3, p1, l2, in_place); code.extend([0x60, 0x04, 0x55, 0x00]);
+        progs.push((format!("s2 = s1[{p1},+{l1}); s3 = s2[{p2},+{l2}); s4 = s3[{p1},+{l2})"), code));
+    } } }
+    // D28 (recorded): the nesting check of the sub-word lift is syntactic and cannot see a field that reaches its parent through SSTORE / SLOAD
+    check_in_slot_as("c12_fields_through_storage", "layout.entry_inside_slot.d28_field_of_field_through_storage", progs);
 }
